@@ -1,18 +1,25 @@
-"""Shared machinery of ./check: build steps, proof-obligation accounting,
-correspondence run, search, evidence and replay writing."""
-import fcntl, hashlib, json, os, re, subprocess, sys, time
+"""Shared machinery of ./check: workspaces, build steps, proof-obligation
+accounting, correspondence run, evidence and replay writing."""
+import fcntl, glob, hashlib, importlib.util, json, os, re, shutil, subprocess, sys, time
 
 V = '/verif'
-COQ = f'{V}/coq'
-BUILD = f'{V}/build'
+REPO = os.path.abspath(os.environ.get('VERIF_REPO', '/repo'))
+MAIN = REPO == '/repo'
+# A workspace holds everything a run writes.  For /repo it is /verif itself
+# (coq/ built in place, evidence/ and replays/ under /verif).  For another
+# tree (VERIF_REPO=<scratch worktree>, used to try mutants without touching
+# /repo) it is a private copy so that concurrent runs do not disturb each other.
+WS = f'{V}/build/main' if MAIN else f'{V}/build/ws/' + hashlib.sha1(REPO.encode()).hexdigest()[:10]
+COQ = f'{V}/coq' if MAIN else f'{WS}/coq'
+OUT = V if MAIN else WS          # evidence/ and replays/ live here
+BIN = f'{WS}/bin'
 HARNESS = f'{V}/harness'
-ALLOWED_AXIOMS = {
-    # standard-library axioms that may appear (named in DESIGN.md §5); none is expected
-    'functional_extensionality_dep', 'proof_irrelevance', 'classic', 'JMeq_eq', 'eq_rect_eq',
-}
+ALLOWED_AXIOMS = {'functional_extensionality_dep', 'proof_irrelevance', 'classic', 'JMeq_eq', 'eq_rect_eq'}
 GOENV = dict(os.environ, GOFLAGS='-mod=mod', GOPROXY='off')
-GOENV.pop('GOTOOLCHAIN', None) if os.environ.get('GOTOOLCHAIN') == 'local' else None
-GOENV.pop('GOSUMDB', None) if os.environ.get('GOSUMDB') == 'off' else None
+if GOENV.get('GOTOOLCHAIN') == 'local':
+    del GOENV['GOTOOLCHAIN']
+if GOENV.get('GOSUMDB') == 'off':
+    del GOENV['GOSUMDB']
 
 
 def sh(cmd, timeout=3600, env=None, cwd=None):
@@ -22,20 +29,48 @@ def sh(cmd, timeout=3600, env=None, cwd=None):
                            timeout=timeout, env=env, cwd=cwd)
         return r.returncode, r.stdout + r.stderr, time.time() - t
     except subprocess.TimeoutExpired as e:
-        out = (e.stdout or b'').decode(errors='replace') if isinstance(e.stdout, bytes) else (e.stdout or '')
-        return 124, out + '\nTIMEOUT', time.time() - t
+        o = e.stdout or ''
+        if isinstance(o, bytes):
+            o = o.decode(errors='replace')
+        return 124, o + '\nTIMEOUT', time.time() - t
 
 
 class Lock:
-    """One build at a time in the shared coq/ and build/ trees."""
+    """One build at a time per workspace."""
+    def __init__(self, name='build'):
+        self.name = name
     def __enter__(self):
-        os.makedirs(BUILD, exist_ok=True)
-        self.f = open(f'{BUILD}/.lock', 'w')
+        os.makedirs(WS, exist_ok=True)
+        self.f = open(f'{WS}/.{self.name}.lock', 'w')
         fcntl.flock(self.f, fcntl.LOCK_EX)
         return self
     def __exit__(self, *a):
         fcntl.flock(self.f, fcntl.LOCK_UN)
         self.f.close()
+
+
+def load_props():
+    props = {}
+    for f in sorted(glob.glob(f'{V}/checks/props/c*.py')):
+        pid = os.path.basename(f)[:-3].upper()
+        spec = importlib.util.spec_from_file_location('prop_' + pid, f)
+        m = importlib.util.module_from_spec(spec)
+        try:
+            spec.loader.exec_module(m)
+        except Exception as e:  # a half-written config must not break the others
+            print(f'warning: {f}: {e}', file=sys.stderr)
+            continue
+        props[pid] = m
+    return props
+
+
+def prepare_workspace():
+    os.makedirs(BIN, exist_ok=True)
+    os.makedirs(f'{OUT}/evidence', exist_ok=True)
+    if not MAIN:
+        os.makedirs(COQ, exist_ok=True)
+        sh(['rsync', '-a', '--delete', '--exclude', 'gen/', f'{V}/coq/', f'{COQ}/'])
+        os.makedirs(f'{COQ}/gen', exist_ok=True)
 
 
 def coq_sources():
@@ -66,32 +101,40 @@ def coq_makefile():
             raise RuntimeError('coq_makefile failed: ' + out)
 
 
-def go_prepare():
-    # go.sum of the harness follows the repository's
+def modfile():
+    """go.mod/go.sum for the harness pointing at REPO (its current working tree)."""
+    mod = open(f'{HARNESS}/go.mod').read().replace('=> /repo', '=> ' + REPO)
+    write_if_changed(f'{WS}/harness.mod', mod)
     try:
-        write_if_changed(f'{HARNESS}/go.sum', open('/repo/go.sum').read())
+        write_if_changed(f'{WS}/harness.sum', open(f'{REPO}/go.sum').read())
     except OSError:
         pass
+    return f'{WS}/harness.mod'
 
 
 def go_build(target, tags='verif'):
-    """(Re)build a harness command against /repo's current working tree."""
-    go_prepare()
-    os.makedirs(f'{HARNESS}/bin', exist_ok=True)
-    return sh(['go', 'build', '-tags', tags, '-o', f'bin/{target}', f'./cmd/{target}'],
-              timeout=1200, env=GOENV, cwd=HARNESS)
+    """(Re)build a harness command against REPO's current working tree."""
+    mf = modfile()
+    tmp = f'{BIN}/.{target}.{os.getpid()}'
+    rc, out, dt = sh(['go', 'build', '-modfile', mf, '-tags', tags, '-o', tmp, f'./cmd/{target}'],
+                     timeout=1800, env=GOENV, cwd=HARNESS)
+    if rc == 0:
+        os.replace(tmp, f'{BIN}/{target}')
+    return rc, out, dt
 
 
 def translate():
-    """Regenerate coq/gen/*.v from /repo's current source (translator)."""
+    """Regenerate coq/gen/*.v from REPO's current source (the translator)."""
     rc, out, dt = go_build('translate', tags='')
     if rc != 0:
         return rc, 'translator build failed:\n' + out, dt, []
-    rc, out, dt2 = sh([f'{HARNESS}/bin/translate', '-repo', '/repo', '-out', f'{BUILD}/gen_tmp'], timeout=600, env=GOENV)
+    tmp = f'{WS}/gen_tmp'
+    shutil.rmtree(tmp, ignore_errors=True)
+    rc, out, dt2 = sh([f'{BIN}/translate', '-repo', REPO, '-out', tmp], timeout=900, env=GOENV)
     changed = []
     if rc == 0:
-        for f in sorted(os.listdir(f'{BUILD}/gen_tmp')):
-            if f.endswith('.v') and write_if_changed(f'{COQ}/gen/{f}', open(f'{BUILD}/gen_tmp/{f}').read()):
+        for f in sorted(os.listdir(tmp)):
+            if f.endswith('.v') and write_if_changed(f'{COQ}/gen/{f}', open(f'{tmp}/{f}').read()):
                 changed.append(f)
     return rc, out, dt + dt2, changed
 
@@ -114,32 +157,19 @@ def print_assumptions(vfile):
             cur = []; blocks.append(cur)
         elif cur is not None and re.match(r'^[A-Za-z_][A-Za-z0-9_\.\']*\s*:', line):
             cur.append(line.split(':')[0].strip())
-    res = []
-    for i, n in enumerate(names):
-        res.append((n, blocks[i] if i < len(blocks) else 'missing'))
-    return rc, out, res
+    return rc, out, [(n, blocks[i] if i < len(blocks) else 'missing') for i, n in enumerate(names)]
 
 
 def theorem_statements(vfile, limit=3):
     src = open(f'{COQ}/{vfile}').read()
-    ths = re.findall(r'((?:Theorem|Lemma)\s+[A-Za-z0-9_\']+[^.]*?(?:\.(?!\s)[^.]*?)*\.)\s', src, re.S)
-    return [re.sub(r'\s+', ' ', t)[:600] for t in ths[:limit]]
-
-
-def file_hash(paths):
-    h = hashlib.sha256()
-    for p in paths:
-        try:
-            h.update(open(p, 'rb').read())
-        except OSError:
-            h.update(b'?')
-    return h.hexdigest()
+    src = re.sub(r'\(\*.*?\*\)', '', src, flags=re.S)
+    ths = re.findall(r'(Theorem\s+[A-Za-z0-9_\']+.*?)\bProof\b', src, re.S)
+    return [re.sub(r'\s+', ' ', t).strip()[:700] for t in ths[:limit]]
 
 
 def build_model(pid):
     """Extract and compile the OCaml model driver of a property."""
-    lid = pid.lower()
-    return sh([f'{V}/tools/build_model.sh', lid], timeout=1800)
+    return sh([f'{V}/tools/build_model.sh', pid.lower(), COQ, WS], timeout=1800)
 
 
 def load_known():
